@@ -481,6 +481,32 @@ class Unjudged(Exception):
     pass
 
 
+def inexact_tree(e):
+    """does the tree contain an operation whose floating-point result is not exact by construction?"""
+    if not isinstance(e, tuple):
+        return False
+    if (e[0] == "bin" and e[1] in (10, 12, 15)) or (e[0] == "un" and e[1] == 18) or e[0] == "call":
+        return True
+    return any(inexact_tree(x) for x in e[1:] if isinstance(x, tuple)) or \
+        any(inexact_tree(y) for x in e[1:] if isinstance(x, tuple) for y in x if isinstance(y, tuple))
+
+
+def has_complex(e, env):
+    """may a non-real value flow through the tree (so that `im == 0` is a computed, not a structural, fact)?"""
+    if not isinstance(e, tuple):
+        return False
+    if e[0] == "id":
+        v = env.get(e[1])
+        return e[1] == "i" or (v is not None and v[0] == "n" and v[1].imag != 0)
+    if e[0] == "un" and e[1] == 18:
+        return True
+    if e[0] == "bin" and e[1] == 12:
+        return True
+    if e[0] == "call":
+        return True
+    return any(has_complex(x, env) for x in e[1:] if isinstance(x, tuple))
+
+
 def trunc(x):
     return float(math.trunc(x)) if math.isfinite(x) else x
 
@@ -492,11 +518,29 @@ def crem(a, b):
 
 
 class Evaluator:
-    def __init__(self, unit_spec, env=None):
+    def __init__(self, unit_spec, env=None, perturb=0.0):
         self.units = unit_spec          # unit name -> (kind, size Fraction | None, imperial)
         self.env = env or {}
         self.cond = 0.0                 # largest magnitude seen (error bound scale)
         self.flags = set()
+        self.perturb = perturb          # conditioning probe: relative wobble applied to every number produced
+        self.count = 0
+
+    def wob(self, v):
+        """conditioning probe: a second evaluation with every intermediate number wobbled by a relative
+        `perturb` shows whether the tree amplifies rounding-size changes (ill-conditioned => not judged)"""
+        if not self.perturb or v[0] != "n":
+            return v
+        self.count += 1
+        f = 1.0 + self.perturb * (1 if self.count % 3 else -2) * (1 + (self.count % 5) / 7.0)
+        return ("n", v[1] * f)
+
+    def ev(self, e):
+        v = self.ev0(e)
+        # only results of inexact operations wobble: literals and exact integer arithmetic do not
+        inexact = (e[0] == "bin" and e[1] in (10, 12, 15)) or (e[0] == "un" and e[1] == 18) or e[0] == "call" or \
+                  (e[0] == "grp" and e[1] == 1) or (e[0] == "id" and e[1] in ("e", "pi", "π", "tau", "phi", "ϕ"))
+        return self.wob(v) if inexact else v
 
     def note(self, *zs):
         for z in zs:
@@ -522,7 +566,7 @@ class Evaluator:
             self.flags.add("imperial")
         return kind, v * float(size)
 
-    def ev(self, e):
+    def ev0(self, e):
         t = e[0]
         if t == "num":
             z = complex(e[1])
@@ -549,11 +593,15 @@ class Evaluator:
                 raise Refuse("invalidGroupingOperand")
             if v[0] != "n":
                 raise Refuse("invalidGroupingOperand")
+            if v[1].imag != 0 and abs(v[1].imag) < 1e-9 * max(abs(v[1]), 1e-300):
+                self.flags.add("near-real")        # the is-real test hinges on rounding
+            if v[1].imag == 0 and inexact_tree(e[2]) and self.cond > 0:
+                self.flags.add("near-real") if has_complex(e[2], self.env) else None
             if v[1].imag != 0:
                 raise Refuse("groupingValueConstraintNotMet")
             if not math.isfinite(v[1].real):
                 raise Unjudged()
-            if abs(v[1].real - round(v[1].real)) < 1e-9 * max(1.0, abs(v[1].real)) and v[1].real != round(v[1].real):
+            if abs(v[1].real - round(v[1].real)) < 1e-9 * max(1.0, abs(v[1].real)) and (v[1].real != round(v[1].real) or inexact_tree(e[2])):
                 self.flags.add("near-integer")
             return ("n", complex(math.ceil(v[1].real) if k == 2 else math.floor(v[1].real)))
         if t == "un":
@@ -579,6 +627,8 @@ class Evaluator:
                 if v[0] != "n":
                     raise Refuse("unsupportedUnaryOperator")
                 z = v[1]
+                if inexact_tree(e[2]) and abs(z.imag) < 1e-9 * max(1.0, abs(z)) and abs(z.real - round(z.real)) < 1e-9 * max(1.0, abs(z.real)):
+                    self.flags.add("near-integer")     # the is-natural test hinges on rounding
                 if z.imag != 0 or z.real < 0 or z.real != math.floor(z.real) or not math.isfinite(z.real):
                     if abs(z.imag) < 1e-12 and abs(z.real - round(z.real)) < 1e-9:
                         self.flags.add("near-integer")
